@@ -85,6 +85,7 @@ def fixtures(cfg):
         v["bat%d" % i] = i == 1
         v["sc%d" % i] = [0.3, 0.1, 0.1, 0.7, 0.2, 0.9, 0.15][i]
         v["ord%d" % i] = 0
+    v["done"] = 0
     v2 = dict(v, n_chunks=4, bat1=False, obs0=False, obs2=True, ord0=1)
     v3 = dict(v, n_chunks=1, bat1=False, bat0=True, obs0=False)
     return [v, v2, v3]
@@ -177,6 +178,21 @@ def h_coverage(ctx, cfg):
         for key, members in conds.items():
             ctx.prove(sum(1 for i in members if sel[i]) == 1, "conditioned candidate keeps exactly one experiment per distinct condition of the union",
                       key="batch conditioning: one experiment per distinct condition")
+    # next round on the same objects: one candidate plate is run and marked observed in place (all of its experiments), then
+    # the chunks are scored again - the candidates are now the remaining unobserved plates
+    if want and cfg.get("second_round", True):
+        np = ctx.np
+        R = len(rows)
+        done = want[int(ctx.int("done", 0, len(want) - 1))]
+        sel = [i in rows_of[done] for i in range(R)]
+        screen.set_observed(np.array(sel, dtype=bool), np.array([0.5] * len(rows_of[done]), dtype=float))
+        del log[:]
+        for c in range(n_chunks):
+            sm.score_chunk(scorer, None, screen, None, rng=ctx.rng("R%d" % c), n_chunks=n_chunks, chunk_index=c,
+                           batch_plate_ids=list(batch) if batch else None)
+        ctx.prove(sorted(k for k, _ in log) == [p for p in want if p != done],
+                  "after a plate has been marked observed in place, the next round scores exactly the remaining unobserved plates",
+                  key="coverage of candidate plates (second round on the same screen object)")
     return n_chunks
 
 
